@@ -196,6 +196,9 @@ class Ops:
     def __init__(self, mul_mode="uf"):
         assert mul_mode in ("uf", "exact")
         self.mul_mode = mul_mode
+        self.bounds = {}  # z3 term id of a symbolic Int input -> (lo, hi): declared range (shared with the interpreter)
+        self._ccache = {}
+        self.fold_ct = False  # finite-domain mode: arithmetic on if-then-else trees with constant leaves stays such a tree
         self.side = []  # side axioms (draw ranges etc.)
         self._comm = set()
         self._cite = {}
@@ -230,6 +233,8 @@ class Ops:
     def ite(self, c, a, b, kind):
         if not is_sym(c):
             return a if c else b
+        if kind == "b" and isinstance(a, bool) and isinstance(b, bool):
+            return a if a == b else (c if a else z3.Not(c))
         if not is_sym(a) and not is_sym(b):
             if type(a) is type(b) and a == b:
                 return a
@@ -241,8 +246,108 @@ class Ops:
             return SpecialIte(c, a, b)
         return z3.If(c, zterm(a, kind), zterm(b, kind))
 
+    # ---- finite-domain folding: trees If(c, x, y) whose leaves are numerals
+    def _is_ct(self, x):
+        x = lower(x)
+        if isinstance(x, SpecialIte):
+            return False
+        return (not is_sym(x) and not is_special(x)) or self._const_ite(x)
+
+    def _ct_wanted(self, a, b=0):
+        if not self.fold_ct:
+            return False
+        a, b = lower(a), lower(b)
+        return (self._const_ite(a) or self._const_ite(b)) and self._is_ct(a) and self._is_ct(b)
+
+    def _bounded_vars(self, t, acc=None, seen=None):
+        acc = set() if acc is None else acc
+        seen = set() if seen is None else seen
+        k = t.get_id()
+        if k in seen:
+            return acc
+        seen.add(k)
+        if k in self.bounds:
+            acc.add(k)
+            return acc
+        for ch in t.children():
+            self._bounded_vars(ch, acc, seen)
+            if len(acc) > 1:
+                break
+        return acc
+
+    def _cond_canon(self, c):
+        """A condition that depends on exactly one range-declared integer input is the set of that input's values for
+        which it holds (decided by substitution + simplification): canonical, so mutually exclusive / implied tests prune."""
+        k = c.get_id()
+        r = self._ccache.get(k)
+        if r is None:
+            canon = ("c", k)
+            vs = self._bounded_vars(c)
+            if len(vs) == 1:
+                vid = next(iter(vs))
+                lo, hi, term = self.bounds[vid]
+                S, ok = set(), True
+                for v in range(lo, hi + 1):
+                    sv = z3.simplify(z3.substitute(c, (term, z3.IntVal(v))))
+                    if z3.is_true(sv):
+                        S.add(v)
+                    elif not z3.is_false(sv):
+                        ok = False
+                        break
+                if ok:
+                    canon = ("v", vid, frozenset(S))
+            r = self._ccache[k] = (canon, c)
+        return r[0]
+
+    def _env_lookup(self, env, c):
+        """True/False if the path condition env decides c, else None"""
+        cn = self._cond_canon(c)
+        if cn[0] == "v":
+            allowed = env.get(("v", cn[1]))
+            if allowed is None:
+                lo, hi, _ = self.bounds[cn[1]]
+                allowed = frozenset(range(lo, hi + 1))
+            if allowed <= cn[2]:
+                return True
+            if not (allowed & cn[2]):
+                return False
+            return None
+        return env.get(cn)
+
+    def _env_extend(self, env, c, val):
+        env = dict(env)
+        cn = self._cond_canon(c)
+        if cn[0] == "v":
+            allowed = env.get(("v", cn[1]))
+            if allowed is None:
+                lo, hi, _ = self.bounds[cn[1]]
+                allowed = frozenset(range(lo, hi + 1))
+            env[("v", cn[1])] = (allowed & cn[2]) if val else (allowed - cn[2])
+        else:
+            env[cn] = val
+        return env
+
+    def _ct2(self, f, a, b, kind_out, env=None):
+        """apply f leafwise to two if-then-else trees with constant leaves; infeasible paths (w.r.t. the conditions already
+        taken, incl. mutually exclusive `e == k` tests) are pruned, so the result has at most one leaf per joint value"""
+        env = env or {}
+        a, b = lower(a), lower(b)
+        for x, first in ((a, True), (b, False)):
+            if is_sym(x) and _is_ite(x):
+                c = x.arg(0)
+                d = self._env_lookup(env, c)
+                if d is not None:
+                    x2 = x.arg(1) if d else x.arg(2)
+                    return self._ct2(f, x2, b, kind_out, env) if first else self._ct2(f, a, x2, kind_out, env)
+                t = self._ct2(f, x.arg(1), b, kind_out, self._env_extend(env, c, True)) if first else self._ct2(f, a, x.arg(1), kind_out, self._env_extend(env, c, True))
+                e = self._ct2(f, x.arg(2), b, kind_out, self._env_extend(env, c, False)) if first else self._ct2(f, a, x.arg(2), kind_out, self._env_extend(env, c, False))
+                return self.ite(c, t, e, kind_out)
+        return f(a, b)
+
     # ---- arithmetic
     def add(self, a, b, kind):
+        if self._ct_wanted(a, b):
+            return self._ct2(lambda x, y: self.add(x, y, kind), a, b, kind)
         if isinstance(a, SpecialIte) or isinstance(b, SpecialIte):
             return SpecialIte.lift2(self, lambda x, y: self.add(x, y, kind), a, b)
         if not is_sym(a) and not is_sym(b):
@@ -262,6 +367,8 @@ class Ops:
     def neg(self, a, kind):
         if isinstance(a, SpecialIte):
             return SpecialIte.lift1(self, lambda x: self.neg(x, kind), a)
+        if self._ct_wanted(a):
+            return self._ct2(lambda x, y: self.neg(x, kind), a, 0, kind)
         if not is_sym(a):
             return -a
         return -a
@@ -289,6 +396,8 @@ class Ops:
     def mul(self, a, b, kind):
         if isinstance(a, SpecialIte) or isinstance(b, SpecialIte):
             return SpecialIte.lift2(self, lambda x, y: self.mul(x, y, kind), a, b)
+        if self._ct_wanted(a, b):
+            return self._ct2(lambda x, y: self.mul(x, y, kind), a, b, kind)
         a, b = lower(a), lower(b)
         if not is_sym(a) and not is_sym(b):
             if is_special(a) or is_special(b):
@@ -335,6 +444,8 @@ class Ops:
 
     def div(self, a, b, kind):
         a, b = lower(a), lower(b)
+        if self._ct_wanted(a, b):
+            return self._ct2(lambda x, y: self.div(x, y, kind), a, b, kind)
         if kind == "f":
             if not is_sym(b) and not isinstance(b, SpecialIte):
                 if is_special(b):
@@ -383,6 +494,12 @@ class Ops:
     def cmp(self, op, a, b, kind):
         if isinstance(a, SpecialIte) or isinstance(b, SpecialIte):
             return SpecialIte.lift2(self, lambda x, y: self.cmp(op, x, y, kind), a, b, boolean=True)
+        if kind in ("f", "i") and self._ct_wanted(a, b):
+            return self._ct2(lambda x, y: self.cmp(op, x, y, kind), a, b, "b")
+        if kind == "i" and self.bounds:
+            r = self._cmp_by_bounds(op, lower(a), lower(b))
+            if r is not None:
+                return r
         a, b = lower(a), lower(b)
         if not is_sym(a) and not is_sym(b):
             a_, b_ = (float(a), float(b)) if (is_special(a) or is_special(b)) else (a, b)
@@ -419,6 +536,28 @@ class Ops:
         if a.eq(b):
             return op in ("eq", "le", "ge")
         return {"eq": a == b, "ne": a != b, "lt": a < b, "le": a <= b, "gt": a > b, "ge": a >= b}[op]
+
+    def _cmp_by_bounds(self, op, a, b):
+        """decide `input op constant` from the input's declared range"""
+        flip = {"lt": "gt", "gt": "lt", "le": "ge", "ge": "le", "eq": "eq", "ne": "ne"}
+        if is_sym(b) and not is_sym(a):
+            a, b, op = b, a, flip[op]
+        if not (is_sym(a) and not is_sym(b) and a.get_id() in self.bounds):
+            return None
+        lo, hi = self.bounds[a.get_id()][:2]
+        if op == "lt":
+            return True if hi < b else (False if lo >= b else None)
+        if op == "le":
+            return True if hi <= b else (False if lo > b else None)
+        if op == "gt":
+            return True if lo > b else (False if hi <= b else None)
+        if op == "ge":
+            return True if lo >= b else (False if hi < b else None)
+        if op == "eq":
+            return False if (b < lo or b > hi) else (True if lo == hi == b else None)
+        if op == "ne":
+            return True if (b < lo or b > hi) else (False if lo == hi == b else None)
+        return None
 
     def max(self, a, b, kind):
         if kind == "b":
@@ -599,8 +738,10 @@ class DrawSite:
 
 
 class Interp:
-    def __init__(self, mul_mode="uf", while_bound=8, concrete_rng=False):
+    def __init__(self, mul_mode="uf", while_bound=8, concrete_rng=False, fold_ct=False):
         self.ops = Ops(mul_mode)
+        self.ops.fold_ct = fold_ct
+        self.bounds: dict = self.ops.bounds  # z3 term id of a symbolic Int input -> (lo, hi) inclusive, from the obligation's declared ranges
         self.while_bound = while_bound
         self.draws: list[DrawSite] = []
         self.pc: list = []  # path condition stack
@@ -1137,27 +1278,39 @@ class Interp:
             return fn([int(e) for e in base])
         if len(sym) > 3:
             raise Unsupported(f"{len(sym)} symbolic indices in one gather/scatter")
-        reps = [list(range(-1, dims[i] + 1)) for i in sym]
-        result = None
-        for combo in reversed(list(itertools.product(*reps))):
-            cur = list(base)
-            conds = []
-            for i, v in zip(sym, combo):
-                cur[i] = v
-                e = base[i]
-                if v == -1:
-                    conds.append(e <= -1)
-                elif v == dims[i]:
-                    conds.append(e >= dims[i])
+        reps = []
+        for i in sym:
+            r = list(range(-1, dims[i] + 1))
+            bd = self.bounds.get(base[i].get_id()) if is_sym(base[i]) else None
+            if bd is not None:  # declared range of this input: only its feasible representatives
+                r = [v for v in r if (v == -1 and bd[0] < 0) or (v == dims[i] and bd[1] >= dims[i]) or (0 <= v < dims[i] and bd[0] <= v <= bd[1])]
+            reps.append(r)
+        def cond_of(i, v):
+            e = base[i]
+            if v == -1:
+                return e <= -1
+            if v == dims[i]:
+                return e >= dims[i]
+            return e == v
+
+        def build(level, cur):
+            """nested if-then-else, one symbolic index per level (conditions stay simple `e == v` tests)"""
+            if level == len(sym):
+                return fn([int(c) for c in cur])
+            i = sym[level]
+            result = None
+            for v in reversed(reps[level]):
+                cur2 = list(cur)
+                cur2[i] = v
+                vals = build(level + 1, cur2)
+                if result is None:
+                    result = vals
                 else:
-                    conds.append(e == v)
-            vals = fn([int(c) for c in cur])
-            if result is None:
-                result = vals
-            else:
-                c = z3.And(*conds) if len(conds) > 1 else conds[0]
-                result = [ew(lambda a, b, kk=kk: self.ops.ite(c, a, b, kk), v, r) for v, r, kk in zip(vals, result, out_kinds)]
-        return result
+                    c = cond_of(i, v)
+                    result = [ew(lambda a, b, kk=kk, c=c: self.ops.ite(c, a, b, kk), vv, r) for vv, r, kk in zip(vals, result, out_kinds)]
+            return result
+
+        return build(0, list(base))
 
     def _with_indices(self, eqn, ins, index_slots, dims_of):
         """Generic: operands at index_slots hold indices; others are data."""
